@@ -4,6 +4,7 @@ Correspondence: random event sequences of the death-scan model are replayed ... 
 separable in the real thread), so the tie is behavioural: for small workloads EVERY scheduling point of EVERY victim instance at
 which it holds no lock and has announced itself is a crash point (DetSim, exhaustive per base, counted), x (n_jobs, lifespan,
 chunking, progress bar, map|imap|apply, idle keep-alive gap); outcome class compared with what the theorems predict."""
+import copy
 import random
 
 from harness import inject, oracles, par
@@ -173,6 +174,38 @@ def judge(chk, sc, o):
     return cls
 
 
+def graceful_tie(chk, drv, scs, obs):
+    """map-family calls with a worker_exit hook in which the victim was killed on its way out (after its poison pill): how the call
+    ended — raised, or returned with complete / incomplete exit results — must be one of the ends Mpire.GracefulStop allows for a
+    worker killed in that phase under the repaired stop_and_join (`final`)"""
+    suite = 'a worker killed on its way out of a call with worker_exit vs Mpire.GracefulStop (variant final)'
+    cases = []
+    for sc, o in zip(scs, obs):
+        inj = o.get('injected') or {}
+        op = sc['ops'][0]
+        if len(sc['ops']) != 1 or op['op'] not in oracles.MAPS or not op.get('exit') or sc['pool'].get('keep_alive') or o.get('harness_error') \
+                or inj.get('exit_phase') in (None, 'unclassified') or op.get('worker_lifespan') or op.get('fail'):
+            continue
+        last = o['ops'][0]
+        if o.get('stuck'):
+            impl = 'hangs'
+        elif last.get('outcome') == 'raise':
+            impl = 'raised'
+        else:
+            # complete: one exit result per worker instance that executed a task
+            worked = {c[3] for c in o.get('calls', []) if c[0] == 0 and c[1] == 'task'}
+            impl = 'complete' if len(last.get('exit_results') or []) >= len(worked) else 'incomplete'
+        cases.append((sc, o, inj['exit_phase'], impl))
+    lines = sorted({'gstop variant=final apply=0 kill=%s' % ph for _, _, ph, _ in cases})
+    model = dict(zip(lines, drv.run(lines)))
+    for sc, o, ph, impl in cases:
+        res = model['gstop variant=final apply=0 kill=%s' % ph]
+        chk.count(suite, key=key_of(sc) + str(sc['inject']), nontrivial=True, sample={'scenario': sc, 'killed_in': ph, 'impl': impl, 'model': res}, killed_in=ph, ended=impl)
+        allowed = res.split('=', 1)[1].split(',') if res.startswith('ends=') else []
+        if impl not in allowed:
+            chk.mismatch(suite, {'scenario': sc, 'killed_in': ph}, impl, res)
+
+
 def handover_tie(chk, sc, o, model):
     """apply pools: what happened to the task the victim was handed — and whether the pool could be joined afterwards —
     vs Mpire.Handover for the phase the victim was killed in"""
@@ -282,6 +315,11 @@ def run(chk):
                       'ops': [{'op': rng.choice(['map', 'map_unordered', 'imap']), 'n': rng.randint(4, 8), 'chunk_size': 1, 'exit': True,
                                'init': rng.random() < .5, 'exit_dur': {'kind': 'map', 'map': {str(rng.randrange(nj)): rng.choice([0.3, 1.0])}, 'default': 0.0},
                                'dur': {'kind': 'hash', 'salt': rng.randint(0, 99), 'unit': 0.01}}]})
+        if chk.tier != 'quick' and rng.random() < .5:
+            continue
+        # … and the same with a death handler that is slow between clearing the victim's flag and reporting the death
+        bases.append(copy.deepcopy(bases[-1]))
+        bases[-1]['rules'] = [{'role': 'unexpected_death_handler', 'op': 'array.set+', 'obj': 'workers_dead', 'sleep': rng.choice([0.2, 0.5]), 'p': 1.0}]
     phases = ['queued', 'pill', 'task', 'init', 'announced', 'resultsent']
     handover_model = dict(zip(phases, drv.run(['handover phase=%s' % p for p in phases])))
     chk.notes['handover_model'] = handover_model
@@ -312,6 +350,7 @@ def run(chk):
                       sample={'scenario': sc, 'outcome': cls, 'injected': o.get('injected')}, outcome=cls, op=sc['ops'][0]['op'],
                       in_user_function=(o.get('injected') or {}).get('in_user_function'))
     chk.notes['crash_sweep'] = {'bases': len(bases), 'crash_points_tried': len(swept), 'outcome_classes': classes, 'exhaustive_per_base': True}
+    graceful_tie(chk, drv, swept, obs)
     idle = idle_scenarios(rng, 60 if chk.tier == 'quick' else 800)
     iobs = par.run_all(idle)
     for sc, o in zip(idle, iobs):
